@@ -304,8 +304,9 @@ func unsupported(msg string) *Unsupported { return &Unsupported{Msg: msg} }
 
 // GoPanic is a Go-level panic travelling through interpreted frames.
 type GoPanic struct {
-	V   Value
-	Msg string
+	V     Value
+	Msg   string
+	Where string
 }
 
 // pathEnd terminates the current path (assume-false, violation recorded, bound exceeded).
